@@ -15,9 +15,10 @@ pub mod c14;
 pub mod c15;
 pub mod c16;
 pub mod c17;
+pub mod c18;
 pub mod c19;
 pub mod c20;
 
 pub fn all() -> Vec<Property> {
-    vec![c01::property(), c02::property(), c03::property(), c04::property(), c06::property(), c07::property(), c08::property(), c09::property(), c10::property(), c12::property(), c13::property(), c14::property(), c15::property(), c16::property(), c17::property(), c19::property(), c20::property()]
+    vec![c01::property(), c02::property(), c03::property(), c04::property(), c06::property(), c07::property(), c08::property(), c09::property(), c10::property(), c12::property(), c13::property(), c14::property(), c15::property(), c16::property(), c17::property(), c18::property(), c19::property(), c20::property()]
 }
